@@ -623,7 +623,7 @@ def fit_cases(draw):
 
 def subchecks(tier):
     return [
-        Given("documents", doc_cases(), prop_documents, quick=1500, thorough=200000, floors={"max_len_cap_applied": 0.076, "force_feasible_cap_applied": 0.1, "fit": 0.07, "sub_second": 0.2, "instant_on_period_boundary": 0.079, "zero_period_stay": 0.03, "zoneinfo_session_across_dst_with_max_len": 0.01, "tz_zoneinfo": 0.1}),
+        Given("documents", doc_cases(), prop_documents, quick=1500, thorough=200000, floors={"max_len_cap_applied": 0.076, "force_feasible_cap_applied": 0.1, "fit": 0.07, "sub_second": 0.2, "instant_on_period_boundary": 0.057, "zero_period_stay": 0.03, "zoneinfo_session_across_dst_with_max_len": 0.01, "tz_zoneinfo": 0.089}),
         Given("stochastic", stochastic_cases(), prop_stochastic, quick=800, thorough=100000, floors={"invalid_row": 0.058, "multi_day": 0.258, "empty_day": 0.1, "fit": 0.07, "max_len_cap_applied": 0.076, "integer_sample_matrix": 0.1}),
         Given("clipping", clipping_cases(), prop_clipping, quick=400, thorough=40000, floors={"some_value_clipped": 0.3}, jobs_quick=2),
         Given("capacity_fit", fit_cases(), prop_fit, quick=1500, thorough=200000, floors={"small_request": 0.2, "period_not_dividing_60": 0.15, "starts_in_rampdown": 0.1}),
